@@ -154,7 +154,65 @@ pub fn accesses(i: &Instruction, call_shape: Option<&CallShape>) -> Option<Acces
                 }
             }
         }
+        // A definition consults, assigns and captures what the instructions of its body do, plus
+        // what its own expressions (calibration parameters, matrix / waveform entries, the
+        // parameters of sequence elements) reference.
+        Instruction::CalibrationDefinition(c) => {
+            for e in &c.identifier.parameters {
+                expr_reads(e, &mut a.reads);
+            }
+            for b in &c.instructions {
+                a.absorb(&accesses(b, call_shape)?);
+            }
+        }
+        Instruction::MeasureCalibrationDefinition(c) => {
+            for b in &c.instructions {
+                a.absorb(&accesses(b, call_shape)?);
+            }
+        }
+        Instruction::CircuitDefinition(c) => {
+            for b in &c.instructions {
+                a.absorb(&accesses(b, call_shape)?);
+            }
+        }
+        Instruction::WaveformDefinition(w) => {
+            for e in &w.definition.matrix {
+                expr_reads(e, &mut a.reads);
+            }
+        }
+        Instruction::GateDefinition(g) => match &g.specification {
+            quil_rs::instruction::GateSpecification::Matrix(m) => {
+                for e in m.iter().flatten() {
+                    expr_reads(e, &mut a.reads);
+                }
+            }
+            quil_rs::instruction::GateSpecification::Permutation(_) | quil_rs::instruction::GateSpecification::PauliSum(_) => {}
+            quil_rs::instruction::GateSpecification::Sequence(_) => {
+                // the element list is private: read the elements back from the printed definition
+                use quil_rs::quil::Quil;
+                use std::str::FromStr;
+                let text = i.to_quil().ok()?;
+                for line in text.lines().skip(1).filter(|l| !l.trim().is_empty()) {
+                    match Instruction::from_str(line.trim()).ok()? {
+                        Instruction::Gate(gate) => {
+                            for e in &gate.parameters {
+                                expr_reads(e, &mut a.reads);
+                            }
+                        }
+                        _ => return None,
+                    }
+                }
+            }
+        },
         _ => return None,
     }
     Some(a)
+}
+
+impl Accesses {
+    fn absorb(&mut self, other: &Accesses) {
+        self.reads.extend(other.reads.iter().cloned());
+        self.writes.extend(other.writes.iter().cloned());
+        self.captures.extend(other.captures.iter().cloned());
+    }
 }
